@@ -83,6 +83,8 @@ impl Process {
     pub fn set_data(&self, vars: &Vars) {
         if let Some(root) = self.root() {
             root.set_data(vars);
+            // process vars live in the root task: keep its row current
+            let _ = self.runtime.cache().upsert(&root);
         }
     }
 
